@@ -370,6 +370,7 @@ def run(ctx):
                     while cur[0] == "call":
                         chain.append(strip_generics(cur[1]).split("::")[-1] if isinstance(cur[1], str) else "?")
                         cur = strip_sym(cur[2][0])
+                    cur = _unbox_view(cur)
                     src_ok = cur[0] == "field" and cur[2] == "recorders"
                     ok = chain[:2] == ["collect", "map"] and set(chain[2:]) <= {"iter", "deref", "into_iter", "as_slice"} and src_ok
                     detail = f"handles = {'.'.join(reversed(chain))} over {sym_str(cur)[:60]}"
@@ -467,6 +468,20 @@ def _router_kind_tries(u):
     return out if len(set(out.values())) == 3 else None
 
 
+def _unbox_view(src):
+    """A Box<[T]> is iterated through its inner pointer ((*self.f.0.pointer as *const [T])): the same whole-sequence view
+    of self.f as iterating a Vec field."""
+    src = strip_sym(src)
+    for _ in range(6):
+        if src[0] in ("cast", "deref", "ref"):
+            src = strip_sym(src[1])
+        elif src[0] == "field" and src[2] in ("0", "pointer") and strip_sym(src[1])[0] == "field":
+            src = strip_sym(src[1])
+        else:
+            break
+    return src
+
+
 def _root_through_calls(s):
     """The base a chain of conversions/projections starts from."""
     s = strip_sym(s)
@@ -552,6 +567,7 @@ def check_fan_loop(chk, f, field, mname, kind):
     if src is None:
         return chk.ob("C13.e", where, False, f"the inner {mname} is not applied once to every element of self.{field}: {why}", c.loc())
     src = strip_sym(src)
+    src = _unbox_view(src)
     if field is None and src[0] == "field" and is_param(sym_through(src[1]), 0):
         field = src[2]  # the (one) vector of inner handles, whatever it is called
     if not (src[0] == "field" and src[2] == field and is_param(sym_through(src[1]), 0)):
